@@ -17,7 +17,9 @@ RULE = (
 	'from VERIF_SEED: key pairs (random + boundary secrets) x peers; public keys that are non-canonical (y >= p), off the curve, on the curve '
 	'but outside the prime-order subgroup, the identity; every plaintext length 0..160 and 255, 256, 1000, 1023, 1024 (counted per '
 	'length class mod 16) for every encoder/decoder pair (recipient and sender, roles swapped from one length to the next) and format of '
-	'both networks incl. the delegation layout; plaintexts of 0, 1, 15, 16, 17, 1024 bytes with corruptions x formats (Symbol '
+	'both networks incl. the delegation layout; delegation requests whose ephemeral public key begins with each of the 8 marker byte '
+	'values and 24 other values (all 256 in the thorough tier), frames whose tag, nonce and ciphertext (salt, iv, ciphertext) all begin '
+	'with the marker byte / with the same byte; plaintexts of 0, 1, 15, 16, 17, 1024 bytes with corruptions x formats (Symbol '
 	'current / deprecated hex / delegation; NEM current / deprecated CBC) x both networks; for Symbol every single-byte corruption of '
 	'marker, tag, nonce and ciphertext of short messages (sampled positions for long ones, all in the thorough tier), wrong-recipient and '
 	'wrong-peer decodes; truncated and malformed messages; PKCS7 and hex helpers on boundary inputs; shipped derive/cipher vectors. A case '
@@ -665,10 +667,13 @@ def _symbol_message_round(checker, rng, size, everything):
 	checker.try_decode_symbol('current', secret_b, public_a, bytes([rng.choice([0, 2, 0xFD, 0xFF])]) + frame, None, 'other marker', informative=True)
 
 
-def _delegation_round(checker, rng, everything):
+def _delegation_round(checker, rng, everything, ephemeral=None, corruptions=True):
 	from .c07 import ref_public_key
 	ctx = checker.ctx
+	chosen = ephemeral
 	ephemeral, node, remote, vrf, any_secret = (rng.bytes_(32) for _ in range(5))
+	if chosen is not None:
+		ephemeral = chosen
 	public_node, public_ephemeral = ref_public_key('symbol', node), ref_public_key('symbol', ephemeral)
 	iv = rng.bytes_(12)
 	key = _key_bytes(oracle_shared_key('symbol', ephemeral, public_node))
@@ -688,6 +693,8 @@ def _delegation_round(checker, rng, everything):
 	checker.try_decode_symbol(
 		'current', node, ref_public_key('symbol', any_secret), encoded, f'ok 1 {hx(clear)}', 'the node does not decode the delegation request')
 	checker.try_decode_symbol('current', any_secret, public_node, encoded, f'ok 0 {hx(encoded)}', 'another key decodes the delegation request')
+	if not corruptions:
+		return
 	regions = [(0, 8), (8, 40), (40, 56), (56, 68), (68, len(encoded))]
 	for position in _positions(rng, len(encoded), everything, regions, 40):
 		corrupted = _corrupt(rng, encoded, position)
@@ -755,6 +762,136 @@ def _nem_message_round(checker, rng, size):
 	for cut in (0, rng.randrange(1, 32), rng.randrange(32, 48)):
 		checker.try_decode_nem(secret_b, public_a, 2, encoded_deprecated[:cut], None, 'truncated NEM message', informative=True)
 		ctx.count('malformed:nem-truncated')
+
+
+DELEGATION_MARKER_BYTES = bytes.fromhex('FE2A8061577301E2')
+
+
+def _delegation_first_bytes(checker, rng, all_values):
+	"""Delegation requests whose ephemeral public key begins with each byte value of the marker (always) and a spread of other values
+	(all 256 when `all_values`): a field that follows a marker has to be tried with values that begin like the marker. The ephemeral
+	secret is what `PrivateKey.random` would have drawn; secrets are searched for by the first byte of their public key."""
+	from .c07 import ref_public_key
+	ctx = checker.ctx
+	wanted = set(range(256)) if all_values else set(DELEGATION_MARKER_BYTES)
+	spread = 256 if all_values else 24
+	found, others = {}, {}
+	for _ in range(12000 if all_values else 6000):
+		secret = rng.bytes_(32)
+		first = ref_public_key('symbol', secret)[0]
+		if first in wanted:
+			found.setdefault(first, secret)
+		elif len(others) < spread:
+			others.setdefault(first, secret)
+		if len(found) == len(wanted) and (all_values or len(others) >= spread):
+			break
+	missing = sorted(wanted - set(found))
+	if missing:
+		ctx.notes.append(f'delegation: no ephemeral secret found for public key first bytes {missing}')
+		ctx.count('delegation:first-byte:not-found', len(missing))
+	for first, secret in sorted({**others, **found}.items()):
+		_delegation_round(checker, rng, False, ephemeral=secret, corruptions=False)
+		ctx.count('delegation:ephemeral-key-first-byte:' + ('in-marker' if first in DELEGATION_MARKER_BYTES else 'other'))
+		if 0 == len(checker.ops) % 64:
+			checker.settle()
+	ctx.count('delegation:distinct-first-bytes', len({**others, **found}))
+	checker.settle()
+
+
+def _search_gcm(rng, key, size, head, limit=6000):
+	"""(iv, clear, ciphertext, tag) with iv[0] == ciphertext[0] == tag[0] (== head when given): the first byte after every
+	fixed-size prefix of the frame repeats the first byte of the prefix (and of the marker)."""
+	for _ in range(limit):
+		iv = rng.bytes_(12)
+		if head is not None:
+			iv = bytes([head]) + iv[1:]
+		clear = bytearray(rng.bytes_(size))
+		if size:
+			stream = raw_gcm_encrypt(key, iv, bytes(clear))[0][0] ^ clear[0]
+			clear[0] = stream ^ iv[0]
+		cipher_text, tag = raw_gcm_encrypt(key, iv, bytes(clear))
+		if tag[0] == iv[0] and (not size or cipher_text[0] == iv[0]):
+			return iv, bytes(clear), cipher_text, tag
+	return None
+
+
+def _boundary_round(checker, rng):
+	"""Frames in which every field begins like the field (or marker) before it, produced by the real encoders with the IV / salt
+	they would have drawn, decoded by recipient and sender."""
+	from .c07 import ref_public_key
+	ctx = checker.ctx
+	for network in ('symbol', 'nem'):
+		secret_a, secret_b = rng.bytes_(32), rng.bytes_(32)
+		public_a, public_b = ref_public_key(network, secret_a), ref_public_key(network, secret_b)
+		key = _key_bytes(oracle_shared_key(network, secret_a, public_b))
+		encoder = checker.encoders[network](checker.key_pair(network, secret_a))
+		heads = [1, None, DELEGATION_MARKER_BYTES[0]] if 'symbol' == network else [None, 2]
+		for head in heads:
+			size = rng.choice([1, 16, 20, 33])
+			hit = _search_gcm(rng, key, size, head)
+			label = 'any' if head is None else f'{head:02X}'
+			if hit is None:
+				ctx.count(f'boundary:{network}:heads-{label}:not-found')
+				continue
+			iv, clear, cipher_text, tag = hit
+			frame = tag + iv + cipher_text
+			decoded = f'ok 1 {hx(clear)}'
+			ctx.count(f'boundary:{network}:tag-iv-ciphertext-begin-with-{label}')
+			if 'symbol' == network:
+				for variant in ('current', 'deprecated'):
+					with _with_random([iv]):
+						encoded = (encoder.encode if 'current' == variant else encoder.encode_deprecated)(checker.public_key_class(public_b), clear)
+					required = b'\x01' + (frame if 'current' == variant else frame.hex().encode('utf8'))
+					checker.add(
+						'encode', {'network': 'symbol', 'variant': variant, 'secret': secret_a, 'peer': public_b, 'iv': iv, 'clear': clear},
+						'ok ' + hx(encoded), 'ok ' + hx(required),
+						f'encode symbol {variant} {hx(secret_a)} {hx(public_b)} {hx(iv)} {hx(clear)} {hx(key)} {hx(cipher_text)} {hx(tag)}',
+						'encoded message != 0x01 | tag | iv | ciphertext under the shared key (fields beginning alike)')
+					checker.try_decode_symbol(variant, secret_b, public_a, encoded, decoded, 'recipient does not decode a message whose fields begin alike')
+					checker.try_decode_symbol(variant, secret_a, public_b, encoded, decoded, 'sender does not decode a message whose fields begin alike')
+				# the same frame behind the delegation marker and a key: marker | key | tag | iv | ct
+			else:
+				with _with_random([iv]):
+					message = encoder.encode(checker.public_key_class(public_b), clear)
+				encoded = bytes(message.message)
+				checker.add(
+					'encode', {'network': 'nem', 'variant': 'current', 'secret': secret_a, 'peer': public_b, 'iv': iv, 'clear': clear},
+					f'ok {hx(encoded)}', f'ok {hx(frame)}',
+					f'encode nem current {hx(secret_a)} {hx(public_b)} {hx(iv)} {hx(clear)} {hx(key)} {hx(cipher_text)} {hx(tag)}',
+					'encoded NEM message != tag | iv | ciphertext under the shared key (fields beginning alike)')
+				checker.try_decode_nem(secret_b, public_a, 2, encoded, decoded, 'recipient does not decode a NEM message whose fields begin alike')
+				checker.try_decode_nem(secret_a, public_b, 2, encoded, decoded, 'sender does not decode a NEM message whose fields begin alike')
+		if 'nem' == network:
+			# deprecated: salt | iv | ciphertext with the iv repeating the head of the salt and the ciphertext beginning like both
+			for _ in range(2):
+				salt = rng.bytes_(32)
+				iv16 = salt[:16]
+				cbc_key = _key_bytes(oracle_shared_key_deprecated(secret_a, public_b, salt))
+				size = rng.choice([1, 15, 16, 31])
+				hit = None
+				for _ in range(4000):
+					clear = rng.bytes_(size)
+					cbc_text = raw_cbc(cbc_key, iv16, oracle_pad(clear), True)
+					if cbc_text[0] == salt[0]:
+						hit = clear, cbc_text
+						break
+				if hit is None:
+					ctx.count('boundary:nem:deprecated:not-found')
+					continue
+				clear, cbc_text = hit
+				with _with_random([salt, iv16]):
+					message = encoder.encode_deprecated(checker.public_key_class(public_b), clear)
+				encoded = bytes(message.message)
+				checker.add(
+					'encode_nem_deprecated', {'secret': secret_a, 'peer': public_b, 'salt': salt, 'iv': iv16, 'clear': clear}, f'ok {hx(encoded)}',
+					f'ok {hx(salt + iv16 + cbc_text)}',
+					f'encode_nem_deprecated {hx(secret_a)} {hx(public_b)} {hx(salt)} {hx(iv16)} {hx(clear)} {hx(cbc_key)} {hx(cbc_text)}',
+					'deprecated NEM message != salt | iv | ciphertext (fields beginning alike)')
+				decoded = f'ok 1 {hx(clear)}'
+				checker.try_decode_nem(secret_b, public_a, 2, encoded, decoded, 'recipient does not decode a deprecated NEM message whose fields begin alike')
+				checker.try_decode_nem(secret_a, public_b, 2, encoded, decoded, 'sender does not decode a deprecated NEM message whose fields begin alike')
+				ctx.count('boundary:nem:deprecated:salt-iv-ciphertext-begin-alike')
+		checker.settle()
 
 
 SWEEP_LENGTHS = list(range(0, 161)) + [255, 256, 1000, 1023, 1024]
@@ -913,7 +1050,7 @@ def run(ctx):
 	if ctx.thorough:
 		_length_sweep(checker, rng, list(range(161, 420)) + [2048, 4095, 4096])
 	everything = 'thorough' == ctx.tier
-	for repeat in range(ctx.scale(2, 12)):
+	for repeat in range(ctx.scale(2, 10)):
 		for size in SIZES + ([rng.randrange(2, 300)] if repeat else []):
 			_symbol_message_round(checker, rng, size, everything and (size < 1024 or repeat < 1))
 			checker.settle()
@@ -922,6 +1059,9 @@ def run(ctx):
 	for _ in range(ctx.scale(4, 25)):
 		_delegation_round(checker, rng, everything)
 		checker.settle()
+	_delegation_first_bytes(checker, rng, 'thorough' == ctx.tier)
+	for _ in range(ctx.scale(1, 8)):
+		_boundary_round(checker, rng)
 
 
 def _unhex(value):
